@@ -1685,36 +1685,37 @@ func (self *Aof) syncFileAofChannel(_ *AofChannel) {
 }
 
 func (self *Aof) WaitFlushAofChannel() error {
-	var channelFlushWaiter chan struct{}
-	self.aofGlock.Lock()
-	if self.channelFlushWaiter == nil {
-		channelFlushWaiter = make(chan struct{})
-		self.channelFlushWaiter = channelFlushWaiter
-	} else {
-		channelFlushWaiter = self.channelFlushWaiter
-	}
-	self.aofGlock.Unlock()
-
-	if atomic.CompareAndSwapUint32(&self.channelActiveCount, 0, 0) {
-		queueCount := 0
-		for _, channel := range self.channels {
-			channel.queueGlock.Lock()
-			queueCount += channel.queueCount
-			channel.queueGlock.Unlock()
+	for {
+		var channelFlushWaiter chan struct{}
+		self.aofGlock.Lock()
+		if self.channelFlushWaiter == nil {
+			channelFlushWaiter = make(chan struct{})
+			self.channelFlushWaiter = channelFlushWaiter
+		} else {
+			channelFlushWaiter = self.channelFlushWaiter
 		}
+		self.aofGlock.Unlock()
 
-		if queueCount == 0 {
-			self.aofGlock.Lock()
-			if channelFlushWaiter == self.channelFlushWaiter {
-				self.channelFlushWaiter = nil
+		if atomic.CompareAndSwapUint32(&self.channelActiveCount, 0, 0) {
+			queueCount := 0
+			for _, channel := range self.channels {
+				channel.queueGlock.Lock()
+				queueCount += channel.queueCount
+				channel.queueGlock.Unlock()
 			}
-			self.aofGlock.Unlock()
-			return nil
-		}
-	}
 
-	<-channelFlushWaiter
-	return nil
+			if queueCount == 0 {
+				self.aofGlock.Lock()
+				if channelFlushWaiter == self.channelFlushWaiter {
+					self.channelFlushWaiter = nil
+				}
+				self.aofGlock.Unlock()
+				return nil
+			}
+		}
+
+		<-channelFlushWaiter
+	}
 }
 
 func (self *Aof) ExecuteConsistencyBarrierCommand(commandType uint8) bool {
